@@ -336,6 +336,7 @@ func (s *segment) WriteMessageSet(ms []byte, entries []*entry) error {
 	if _, err := s.write(ms, entries); err != nil {
 		return err
 	}
+	verifCrashPoint("append.after_log_write")
 	return s.Index.writeEntries(entries)
 }
 
@@ -470,12 +471,15 @@ func (s *segment) Replace(old *segment) error {
 	if err := s.close(); err != nil {
 		return err
 	}
+	verifCrashPoint("replace.before_rename_log")
 	if err := os.Rename(s.logPath(), old.logPath()); err != nil {
 		return err
 	}
+	verifCrashPoint("replace.after_rename_log")
 	if err := os.Rename(s.indexPath(), old.indexPath()); err != nil {
 		return err
 	}
+	verifCrashPoint("replace.after_rename_index")
 	s.suffix = ""
 	log, err := os.OpenFile(s.logPath(), os.O_RDWR|os.O_CREATE|os.O_APPEND, 0644)
 	if err != nil {
@@ -555,6 +559,7 @@ func (s *segment) Delete() error {
 			return err
 		}
 	}
+	verifCrashPoint("delete.after_remove_log")
 	if exists(s.Index.Name()) {
 		if err := os.Remove(s.Index.Name()); err != nil {
 			return err
